@@ -10,8 +10,15 @@ against the model "first-mode marginal + unsert") resp. Y[j]^2/sum(Y^2)
 (`sample_square`).  The audit understands any sampler that performs exactly
 M*d weighted `choice` draws in mode-major order (however batched); anything
 else makes the audit *inconclusive* and a protocol-independent statistical
-fallback (real generator, fixed seed, exact binomial tails) decides.  The
-fallback also runs on a fixed subset of tensors always.
+fallback decides: 2*10^4 real draws with a fixed seed, every cell count and
+every mode marginal tested by exact binomial tails (the Pearson quantile is
+only asymptotic; exact tails with a union bound give a guaranteed false-alarm
+level <= 1e-9 per run).  The fallback also always runs on a fixed subset of
+the tensors.
+
+sample-unsert-null: `unsert > 0` makes an all-zero first-mode slice
+reachable; whatever distribution is used below it, the vectors offered to the
+generator must be distributions and real draws must return an index array.
 
 Structural contracts (real int seeds and Generator objects, arbitrary sizes):
 integer dtype / shape / bounds for all samplers, distinct rows for
@@ -67,7 +74,7 @@ ASSUMPTIONS = [
     'distinct rows has negligible probability',
 ]
 SHARDS = {'quick': 12, 'thorough': 16}
-BUDGET_S = {'quick': 240, 'thorough': 1500}
+BUDGET_S = {'quick': 240, 'thorough': 2400}
 
 C = 10.                  # safety factor of the rounding models
 ALPHA = 1e-18            # one-sided level of every exact binomial test
